@@ -87,6 +87,57 @@ async def run(scn):
         SSE.httpx.AsyncClient = real
 
 
+async def run_exit_while_waiting(kind):
+    """leave the context while a request is between its 202 acknowledgement and the event that answers it
+    (normal exit / exception in the body / cancellation of the surrounding scope): must return promptly"""
+    import time
+    import chuk_mcp.transports.sse.transport as _t  # noqa
+    SSE = sys.modules["chuk_mcp.transports.sse.transport"]
+    SCLI = sys.modules["chuk_mcp.transports.sse.sse_client"]
+    SPAR = sys.modules["chuk_mcp.transports.sse.parameters"]
+    from chuk_mcp.protocol.messages.json_rpc_message import JSONRPCMessage
+    scn = {"chunks": [ANNOUNCE], "end": "silent", "post": {"status": 202}}
+    state = {}
+    handler = make_handler(scn, state)
+    real = httpx.AsyncClient
+
+    class Client(real):
+        def __init__(self, *a, **k):
+            k["transport"] = httpx.MockTransport(handler)
+            super().__init__(*a, **k)
+
+    SSE.httpx.AsyncClient = Client
+    t0 = time.time()
+    try:
+        async def body():
+            async with SCLI.sse_client(SPAR.SSEParameters(url="http://srv", timeout=30.0)) as (r, w):
+                await w.send(JSONRPCMessage(jsonrpc="2.0", id="r1", method="tools/list"))
+                await anyio.sleep(0.2)
+                if kind == "exception":
+                    raise KeyError("body")
+                if kind == "cancellation":
+                    await anyio.sleep(30)
+
+        try:
+            with anyio.move_on_after(3.0) as guard:
+                if kind == "cancellation":
+                    with anyio.move_on_after(0.4):
+                        await body()
+                else:
+                    try:
+                        await body()
+                    except KeyError:
+                        pass
+            if guard.cancelled_caught:
+                return "exit-hangs"
+        except BaseException as e:  # noqa
+            return "raised:" + type(e).__name__
+    finally:
+        SSE.httpx.AsyncClient = real
+    dt = time.time() - t0
+    return "left-in-time" if dt < 2.0 else "slow-exit:%.1fs" % dt
+
+
 ANNOUNCE = "event: endpoint\ndata: /messages/?session_id=s1\n\n"
 SCENARIOS = [
     ("refused", {"connect": "refused"}, "raised"),
@@ -113,6 +164,11 @@ async def main():
         out.append({"scenario": name, "outcome": got})
         if not got.startswith(want):
             bad.append({"case": name, "reason": "real-run-outcome:" + got + " expected " + want})
+    for kind in ("normal", "exception", "cancellation"):
+        got = await run_exit_while_waiting(kind)
+        out.append({"scenario": "exit-while-waiting-after-202/" + kind, "outcome": got})
+        if got != "left-in-time":
+            bad.append({"case": "exit-while-waiting-after-202/" + kind, "reason": "real-run-outcome:" + got + " expected left-in-time"})
     print("REALSSE " + json.dumps({"runs": len(out), "details": out, "violations": bad}))
 
 
